@@ -281,7 +281,7 @@ pub fn run(ctx: &Ctx) {
          directly constructed residuals (partition order 0..=8, parameters 0..=14, quotients up to 2^32-1 with the quotient sum forced to 2^32-1 / 2^32 / 2^32+1 and max*n straddling u32::MAX) compared with an independent u128 count; frame headers over the whole 31-bit frame-number and 36-bit start-sample ranges (boundary-dense); \
          non-trivial = component containing a residual or a multi-byte coded number",
     );
-    let per = ctx.tier.scale(300, 10);
+    let per = ctx.tier.scale(2000, 6);
     ctx.search("stream", 16, per, &|| stream_case_strategy(CfgOpts { max_block: 8192, ..Default::default() }, InOpts::default(), false), check_stream);
     ctx.search("residual", 16, per * 4, &|| {
         (0usize..=8, prop_oneof![1usize..=8, 1usize..=70, Just(64usize)], 0usize..=4, proptest::collection::vec(0u8..=14, 1..=8), any::<u64>(), 0u8..=5)
